@@ -7,6 +7,7 @@ RULE = ("os.views <mode> <encoding>: forms of depth <= 4 over contents of length
         "empty constructed values, foreign tags at every position, mutations; CER: segment-length vectors over {0,1,999,1000,1001} of length <= 3 "
         "(all); 3 modes; all views (segments, to_bytes, into_bytes, len, is_empty, octets, as_slice); use as a Source (run ... osrc); "
         "re-encoding (os.enc). non-trivial = accepted.")
+CROSS = {'C11': 2000, 'C17': 1500, 'C07': 3000, 'C10': 1500}   # cross streams: samples of neighbouring properties' request streams (outcomes, model <-> implementation)
 EXHAUSTIVE = {"quick": False, "thorough": False}
 EXHAUSTIVE_NOTE = {"quick": "all CER segment-length vectors over {0,1,999,1000,1001} of length <= 3", "thorough": "length <= 4"}
 ASSUMPTIONS = []
